@@ -80,7 +80,7 @@ const simrtPath = "github.com/titpetric/vuego/simrt"
 func main() {
 	dir := flag.String("dir", "", "root of the scratch copy of the vuego module")
 	out := flag.String("sites", "", "write the site table (JSON) here")
-	pkgsFlag := flag.String("pkgs", ".,./internal/helpers,./internal/ulid,./internal/reflect,./internal/parser,./markdown", "packages to instrument (relative to -dir)")
+	pkgsFlag := flag.String("pkgs", ".,./internal/helpers,./internal/ulid,./internal/reflect,./internal/parser,./markdown,./diff,./formatter", "packages to instrument (relative to -dir)")
 	flag.Parse()
 	if *dir == "" {
 		fmt.Fprintln(os.Stderr, "simgen: -dir required")
